@@ -301,10 +301,11 @@ def takeLock (me l : Nat) : M Q Unit := do
 /-- `PriorityLock._wake_up_first()` -/
 def wakeFirst (l : Nat) : M Q Unit := do
   let w ← get
+  -- `for fut, _ in self._waiters: if fut.done(): return` — a waiter already on its way
+  if !w.locks[l]!.futDone.isEmpty then pure () else
   match w.locks[l]!.waiters.peek with
   | none => pure ()
-  | some e =>
-    if w.locks[l]!.futDone.contains e.obj then pure () else do
+  | some e => do
       setLock l fun ls => { ls with futDone := e.obj :: ls.futDone }
       setTask e.obj fun ts => { ts with st := .ready }
       let h ← newHandle (.step e.obj)
